@@ -30,6 +30,9 @@ AffE(id, k) == (id + k) % 3
 AffB(id, k) == U * (5 * id + k + 1)
 CW(id, k, m) == ((k + 2 * m + id) % 4) + 1
 EmbW(m, r) == ((m + r) % 2) + 1
+\* TriangularAffine: off-diagonal entries (i, j 0-based); the diagonal is 2^AffE, the bias AffB
+TW(id, i, j) == ((id + 2 * i + 3 * j) % 5) - 2
+InTri(q, i, j) == IF q.k = "tril" THEN j < i ELSE j > i
 
 \* ---- shapes by definition ------------------------------------------------------------------------------------------
 RECURSIVE SemShape(_), SemCond(_)
@@ -42,7 +45,7 @@ PartialSelShape(idx, s) ==
     [] idx.kind = "sslice" -> <<Len(idx.rows)>> \o Tail(s)     \* a slice with a step: rows = range(lo, hi, step) in that order
     [] idx.kind = "tuple" -> SubSeq(s, 3, Len(s))
 SemShape(q) ==
-  CASE q.k \in {"aff", "cadd", "perm", "flip", "ident", "scan"} -> q.shape
+  CASE q.k \in {"aff", "cadd", "perm", "flip", "ident", "scan", "tril", "triu"} -> q.shape
     [] q.k = "chain" -> SemShape(q.parts[1])
     [] q.k = "invert" -> SemShape(q.p)
     [] q.k = "vmap" -> <<q.n>> \o SemShape(q.p)
@@ -56,7 +59,7 @@ SemShape(q) ==
     [] q.k = "reshape" -> q.shape
     [] q.k = "embed" -> SemShape(q.p)
 SemCond(q) ==
-  CASE q.k \in {"aff", "perm", "flip", "ident", "scan"} -> None
+  CASE q.k \in {"aff", "perm", "flip", "ident", "scan", "tril", "triu"} -> None
     [] q.k = "cadd" -> q.cs
     [] q.k = "chain" -> MergeCond({SemCond(q.parts[i]) : i \in 1..Len(q.parts)})
     [] q.k = "invert" -> SemCond(q.p)
@@ -102,6 +105,18 @@ PartialSel(idx, s) ==
          IN [t \in 1..(Len(idx.rows) * bl) |-> blocks[((t - 1) \div bl) + 1][((t - 1) % bl) + 1]]
     [] idx.kind = "tuple" -> SelectSeq(Iota(Prod(s)), LAMBDA k : CoordAt(k, s, 1) = idx.i /\ CoordAt(k, s, 2) = idx.j)
 
+\* triangular affine: y_i = 2^e_i x_i + sum over the triangle of T_ij x_j + b_i; the inverse by substitution, in the
+\* order the triangle dictates (exact iff every division is: checked by applying the forward map to the result)
+TriFwd(q, x) == [i \in 1..Len(x) |-> Pow2(AffE(q.id, i - 1)) * x[i] + AffB(q.id, i - 1)
+                                      + SumSeq([j \in 1..Len(x) |-> IF InTri(q, i, j) THEN TW(q.id, i - 1, j - 1) * x[j] ELSE 0])]
+RECURSIVE TriInv(_, _, _, _)
+TriInv(q, y, xs, t) ==
+  IF t = Len(y) THEN xs
+  ELSE LET n == Len(y)
+           i == IF q.k = "tril" THEN t + 1 ELSE n - t
+           acc == SumSeq([j \in 1..n |-> IF InTri(q, i, j) THEN TW(q.id, i - 1, j - 1) * xs[j] ELSE 0])
+       IN TriInv(q, y, [xs EXCEPT ![i] = (y[i] - AffB(q.id, i - 1) - acc) \div Pow2(AffE(q.id, i - 1))], t + 1)
+
 RECURSIVE Run(_, _, _, _)
 \* apply a list of parts to their selections of x and scatter the results back
 Scatter(x, sels, outs) ==
@@ -129,6 +144,10 @@ Run(q, dir, x, c) ==
            ELSE [v |-> TLCEval([k \in 1..n |-> (x[k] - AffB(q.id, k - 1)) \div Pow2(AffE(q.id, k - 1))]),
                  ld |-> 0 - SumSeq([k \in 1..n |-> AffE(q.id, k - 1)]),
                  ok |-> \A k \in 1..n : (x[k] - AffB(q.id, k - 1)) % Pow2(AffE(q.id, k - 1)) = 0]
+    [] q.k \in {"tril", "triu"} ->
+         LET e == SumSeq([k \in 1..n |-> AffE(q.id, k - 1)]) IN
+         IF dir = "f" THEN [v |-> TLCEval(TriFwd(q, x)), ld |-> e, ok |-> TRUE]
+         ELSE LET xs == TLCEval(TriInv(q, x, [k \in 1..n |-> 0], 0)) IN [v |-> xs, ld |-> 0 - e, ok |-> TriFwd(q, xs) = x]
     [] q.k = "cadd" ->
          LET add == [k \in 1..n |-> SumSeq([m \in 1..Len(c) |-> CW(q.id, k - 1, m - 1) * c[m]])] IN
          [v |-> TLCEval([k \in 1..n |-> IF dir = "f" THEN x[k] + add[k] ELSE x[k] - add[k]]), ld |-> 0, ok |-> TRUE]
@@ -182,6 +201,7 @@ RECURSIVE Valid(_)
 CondsAgree(ps) == Cardinality({SemCond(ps[i]) : i \in 1..Len(ps)} \ {None}) <= 1
 Valid(q) ==
   CASE q.k \in {"aff", "cadd", "perm", "flip", "ident", "scan"} -> TRUE
+    [] q.k \in {"tril", "triu"} -> Len(q.shape) = 1
     [] q.k = "chain" -> /\ \A i \in 1..Len(q.parts) : Valid(q.parts[i])
                         /\ \A i \in 1..Len(q.parts) : SemShape(q.parts[i]) = SemShape(q.parts[1])
                         /\ CondsAgree(q.parts)
